@@ -29,7 +29,12 @@ class Side:
     """one set of source definitions: a message (with an array field), an alias, an enum, a constant"""
 
     def __init__(self, ctx: Ctx, tag: str):
-        self.msg = Abs("Message")
+        # a message's generated name is the names of its enclosing messages followed by its own (declared) name
+        self.raw = z3.String(f"raw{tag}")
+        self.scope = z3.String(f"scope{tag}")
+        self.msg = Abs("Message", name=self.raw)
+        full = ctx.fresh(("name", id(self.msg)), PASCAL, "Name")
+        ctx.cons += [z3.InRe(self.raw, PASCAL), z3.Or(self.scope == z3.StringVal(""), z3.InRe(self.scope, PASCAL)), z3.Length(self.scope) <= 4, full == z3.Concat(self.scope, self.raw)]
         self.num = z3.String(f"num{tag}")
         ctx.cons += [z3.InRe(self.num, NUM)]
         self.field = Abs("MessageField", message=self.msg, number=("intstr", self.num))
@@ -76,22 +81,34 @@ def templates() -> Dict[str, Tuple[str, Callable[[Translator, Translator, Ctx, S
     return T
 
 
-def schema_for(kinds: List[Tuple[str, str, str]]) -> str:
-    """kinds: (source kind, name, number)"""
+def schema_for(kinds: List[Tuple[str, str, str, str]]) -> str:
+    """kinds: (source kind, enclosing message name or '', name, field number)"""
     L = ["proto clash"]
+    tops: Dict[str, Dict[str, Any]] = {}
     seen = set()
-    for kind, name, num in kinds:
-        if (kind if kind != "field" else "msg", name) in seen and kind != "field":
-            continue
-        seen.add((kind if kind != "field" else "msg", name))
+    for kind, scope, name, num in kinds:
         if kind in ("msg", "field"):
-            L.append(f"message {name} {{\n    byte[2] f = {num or 1}\n}}")
-        elif kind == "alias":
+            if scope:
+                t = tops.setdefault(scope, {"num": None, "nested": {}})
+                t["nested"].setdefault(name, num or 1)
+            else:
+                t = tops.setdefault(name, {"num": None, "nested": {}})
+                t["num"] = t["num"] or num or 1
+            continue
+        if (kind, name) in seen:
+            continue
+        seen.add((kind, name))
+        if kind == "alias":
             L.append(f"type {name} = byte[2]")
         elif kind == "enum":
             L.append(f"enum {name} : uint3 {{\n    Z_{name.upper()} = 0\n}}")
         elif kind == "const":
             L.append(f"const {name} = 1")
+    for name, t in tops.items():
+        body = [f"    message {n} {{\n        byte[2] f = {num}\n    }}" for n, num in t["nested"].items()]
+        if t["num"] is not None:
+            body.append(f"    byte[2] f = {t['num']}")
+        L.append(f"message {name} {{\n" + "\n".join(body) + "\n}")
     return "\n".join(L) + "\n"
 
 
@@ -140,10 +157,35 @@ def work_pair(job: Tuple[str, str]) -> Dict[str, Any]:
     if r == "unsat":
         res["samples"].append({"pair": f"{ti}~{tj}", "template_a": str(ta), "template_b": str(tb), "verdict": "unsat: no two distinct sources give the same C identifier"})
         return res
+    # which mechanism?  The known collisions D9 need a name that ends in digits next to a field number; ask again with
+    # every name ending in a letter: a collision that survives has another cause and gets another cause key
     m = s.model()
+    suffix = ""
+    LETTER_END = z3.Concat(z3.Star(z3.Union(z3.Range("a", "z"), z3.Range("A", "Z"), z3.Range("0", "9"))), z3.Union(z3.Range("a", "z"), z3.Range("A", "Z")))
+    s.push()
+    small = tier() == "quick"  # the sequence solver needs ~1 min for the full-length unsat answers of the field~field pairs
+    for side in (A, B):
+        s.add(z3.InRe(side.raw, LETTER_END))
+        if small:
+            s.add(z3.Length(side.raw) <= 4, z3.Length(side.scope) <= 2)
+        for k in ("alias", "enum"):
+            s.add(z3.InRe(side.name(k), LETTER_END))
+
+    t0 = time.time()
+    r2 = str(s.check())
+    res["queries"] += 1
+    res["solver_s"] += time.time() - t0
+    if r2 == "sat":
+        m = s.model()
+        suffix = ":letters"
+    s.pop()
     val = lambda x: m.eval(x, model_completion=True).as_string()
-    na, nb = val(names[used[0]]), val(names[used[1]])
-    kinds = [(ka, na, val(A.num)), (kb, nb, val(B.num))]
+    def entry(side: Side, kind: str, key: Tuple[str, str]) -> Tuple[str, str, str, str]:
+        if kind in ("msg", "field"):
+            return (kind, val(side.scope), val(side.raw), val(side.num))
+        return (kind, "", val(names[key]), val(side.num))
+
+    kinds = [entry(A, ka, used[0]), entry(B, kb, used[1])]
     ident = val(ta)
     text = schema_for(kinds)
     with Scratch() as sc:
@@ -160,7 +202,7 @@ def work_pair(job: Tuple[str, str]) -> Dict[str, Any]:
             return res
     res["violations"].append({"what": f"two generated C declarations share the name {ident!r}: {ti} of {kinds[0]} and {tj} of {kinds[1]}; gcc: {errs[0].split('error:')[-1].strip()[:120]}",
                               "payload": {"kind": "schema", "files": {"clash.bitproto": text}, "main": "clash.bitproto", "identifier": ident, "templates": [ti, tj]}, "confirmed": True,
-                              "info": {"kind": "name-clash", "key": "pair:" + "~".join(sorted([ti, tj]))}})
+                              "info": {"kind": "name-clash", "key": "pair:" + "~".join(sorted([ti, tj])) + suffix}})
     return res
 
 
@@ -387,6 +429,99 @@ def work_cxx(job: Tuple[Any, bool]) -> Dict[str, Any]:
     return res
 
 
+PY_PROBE = r'''
+import sys, importlib, dataclasses, json
+mod = importlib.import_module(sys.argv[1])
+from bitprotolib import bp
+out = {"classes": 0}
+for name in sorted(dir(mod)):
+    cls = getattr(mod, name)
+    if isinstance(cls, type) and issubclass(cls, bp.MessageBase) and cls is not bp.MessageBase and cls.__module__ == mod.__name__:
+        m = cls()
+        m.bp_processor()
+        s = m.encode()
+        cls().decode(s)
+        out["classes"] += 1
+print(json.dumps(out))
+'''
+
+
+def work_pyimport(case: Any) -> Dict[str, Any]:
+    """(3c) supporting concrete observation: the Python generated for each family schema (and its imports) imports in
+    CPython, and every message class of the main module can be instantiated with defaults, builds its processor and
+    encodes / decodes once (names that are only looked up lazily are reached)."""
+    from ..common import VENV_PY
+    from ..compile import CompileError, compile_inproc
+
+    res = _res(f"py-import:{case.name}")
+    with Scratch() as sc:
+        src, gen = sc.path("src"), sc.path("gen")
+        os.makedirs(src)
+        files = case.proto.files(getattr(case, "style", None))
+        write_files(files, src)
+        try:
+            for fn in files:
+                compile_inproc(src, fn, "py", gen)
+        except CompileError as e:
+            res["inconclusive"].append(f"{res['case']}: {e}")
+            return res
+        modname = case.proto.stem() + "_bp"
+        opt = next((v.strip('"') for k, v in getattr(case.proto, "options", []) if k == "py.module_name"), None)
+        g = run([VENV_PY, "-c", PY_PROBE, modname], timeout=120, env={"PYTHONPATH": gen + ":" + os.path.join(REPO, "lib", "py")})
+        res["obligations"] += 1
+        res["messages"] = len(case.messages)
+        if g.returncode != 0:
+            last = (g.stderr.strip().split("\n") or [""])[-1]
+            frames = [l.strip() for l in g.stderr.split("\n") if l.strip().startswith("File ")]
+            where = frames[-1] if frames else ""
+            nested_import = "is not defined" in last and any(im for im in case.proto.imports)
+            res["violations"].append({"what": f"{res['case']}: the generated Python does not import / instantiate / encode with defaults: {last[:160]} ({where[-120:]})",
+                                      "payload": {"kind": "schema", "files": files, "main": case.proto.fname(), "lang": "py"}, "confirmed": True,
+                                      "info": {"kind": "py-import", "exc": last.split(":")[0], "key": "py-import:" + last.split(":")[0] + (":imported-name" if nested_import else "")}})
+        elif len(res["samples"]) < 1:
+            res["samples"].append({"case": res["case"], "probe": g.stdout.strip()})
+    return res
+
+
+def work_gostatic(job: Tuple[Any, bool]) -> Dict[str, Any]:
+    """(3d) supporting concrete observation, the statically checkable Go clause: every Go file generated for a family
+    schema parses (E3's Go subset), has balanced brackets, uses every import, and mentions no identifier that is neither
+    declared in the file, predeclared, nor qualified by an import (vlib/gostatic.py; there is no Go toolchain here)."""
+    from .. import gostatic
+    from ..compile import CompileError, compile_inproc
+
+    case, opt = job
+    res = _res(f"go-static:{case.name}{':-O' if opt else ''}")
+    with Scratch() as sc:
+        src, gen = sc.path("src"), sc.path("gen")
+        os.makedirs(src)
+        files = case.proto.files(getattr(case, "style", None))
+        write_files(files, src)
+        try:
+            for fn in files:
+                compile_inproc(src, fn, "go", gen, optimize=opt)
+        except CompileError as e:
+            res["inconclusive"].append(f"{res['case']}: {e}")
+            return res
+        for root, _d, fs in os.walk(gen):
+            for f in sorted(fs):
+                if not f.endswith(".go"):
+                    continue
+                res["obligations"] += 1
+                try:
+                    problems = gostatic.check(open(os.path.join(root, f)).read())
+                except Inconclusive as e:
+                    res["inconclusive"].append(f"{res['case']}: {f}: {e}")
+                    continue
+                if problems:
+                    kind = "unused-import" if all("is not used" in p for p in problems) else ("undeclared" if any("declared nowhere" in p for p in problems) else "syntax")
+                    res["violations"].append({"what": f"{res['case']}: {f} is not well-formed Go: {'; '.join(problems[:3])}", "payload": {"kind": "schema", "files": files, "main": case.proto.fname(), "lang": "go", "optimize": opt},
+                                              "confirmed": True, "info": {"kind": "go-static", "key": "go-static:" + kind}})
+                elif len(res["samples"]) < 1:
+                    res["samples"].append({"case": res["case"], "file": f, "verdict": "parses, balanced, imports used, identifiers resolved"})
+    return res
+
+
 def main() -> int:
     from .agg import run_parts
     from ..families import f_shape_core, is_extensible_case
@@ -396,11 +531,11 @@ def main() -> int:
 
     T = list(templates())
     pairs = [(T[i], T[j]) for i in range(len(T)) for j in range(i, len(T))]
-    parts = [("c-name-templates", work_pair, pairs), ("import-target", work_import, ["c", "py"]), ("defer-nesting", work_nesting, [1, 2, 3, 4] + ([5] if tier() == "thorough" else [])), ("cxx-header", work_cxx, cxx_jobs)]
+    parts = [("c-name-templates", work_pair, pairs), ("import-target", work_import, ["c", "py"]), ("defer-nesting", work_nesting, [1, 2, 3, 4] + ([5] if tier() == "thorough" else [])), ("cxx-header", work_cxx, cxx_jobs), ("py-import", work_pyimport, f_shape_core()), ("go-static", work_gostatic, [(x, False) for x in f_shape_core()] + [(x, True) for x in f_shape_core() if not is_extensible_case(x)])]
     meta = {
         "functions_encoded": FILES,
         "templates": T,
-        "bounds": f"{len(T)} C name templates (array / message / alias processors and JSON formatters, field-descriptor initialiser, Encode/Decode/Json, user-level typedef names), all {len(pairs)} pairs incl. each template with itself; identifiers PascalCase-looking, <= 8 characters; field numbers 1..255; import target: proto name and file stem free (<= 8 chars), C and Python",
+        "bounds": f"{len(T)} C name templates (array / message / alias processors and JSON formatters, field-descriptor initialiser, Encode/Decode/Json, user-level typedef names), all {len(pairs)} pairs incl. each template with itself; identifiers PascalCase-looking, <= 8 characters (a message's generated name = enclosing message name (<= 4) + declared name); field numbers 1..255; every sat pair is asked again with all names ending in a letter (quick: declared message names <= 4, scopes <= 2) to separate the digit-boundary mechanism of D9 from any other cause; import target: proto name and file stem free (<= 8 chars), C and Python",
         "outside_claim": "everything else in the property: that the output compiles as C / includes from C++ with equal layout / imports in Python / is statically well-formed Go, declaration order, -F, reserved words; BYTES_LENGTH_* macro names (upper/snake case conversion inspects characters); Go import paths (packages, not files). Those clauses are value-independent observations of single artefacts; they are exercised incidentally (every C0x run needs clang / CPython / the Go interpreter to accept the generated code; a rejection there is exit 2 with the diagnostic).",
         "explanation": "the ast of the current formatter methods is translated to z3 sequence terms; query t1(args1) == t2(args2) with distinct sources (precondition: formatted names of distinct definitions are distinct); sat models are compiled with the real compiler and confirmed by gcc / CPython",
         "evaluations": len(pairs) + 2,
@@ -413,13 +548,43 @@ def main() -> int:
 def replay(path: str) -> int:
     import json
 
+    from .. import gostatic
+    from ..common import VENV_PY
+
     p = json.load(open(path))
+    if p.get("kind") == "defer-nesting":
+        r = work_nesting(len(p["kinds"]))
+        bad = [v for v in r["violations"] if v["payload"]["kinds"] == p["kinds"]]
+        print(bad[0]["what"] if bad else "passes: holds on this input now")
+        return 1 if bad else 0
+    lang = p.get("lang", "c")
     with Scratch() as sc:
         write_files(p["files"], sc.dir)
+        flags = ["-q"] + (["-O"] if p.get("optimize") else [])
         for fn in p["files"]:
-            compile_cli(sc.dir, fn, p.get("lang", "c"), sc.path("out"), ["-q"])
-        if p.get("lang", "c") == "c":
-            g = run(["gcc", "-fsyntax-only", "-I", sc.path("out"), "-I", os.path.join(REPO, "lib", "c"), os.path.join(sc.path("out"), p["main"].replace(".bitproto", "_bp.c"))])
-            print(g.stderr[-600:])
+            r = compile_cli(sc.dir, fn, lang, sc.path("out"), flags)
+            if r.returncode:
+                print(f"the compiler rejects {fn}: {r.stderr[-300:]}")
+                return 1
+        main = p["main"].replace(".bitproto", "")
+        if lang == "c":
+            g = run(["gcc", "-fsyntax-only", "-I", sc.path("out"), "-I", os.path.join(REPO, "lib", "c"), os.path.join(sc.path("out"), main + "_bp.c")])
+            if g.returncode == 0:
+                # the header from C++, included twice
+                open(sc.path("t.cc"), "w").write(f'#include "{main}_bp.h"\n#include "{main}_bp.h"\n')
+                g = run(["clang", "-x", "c++", "-fsyntax-only", "-I", sc.path("out"), "-I", os.path.join(REPO, "lib", "c"), sc.path("t.cc")])
+            print(g.stderr[-600:] or "passes: gcc and clang++ accept the generated C")
             return 1 if g.returncode else 0
+        if lang == "py":
+            g = run([VENV_PY, "-c", PY_PROBE, main + "_bp"], timeout=120, env={"PYTHONPATH": sc.path("out") + ":" + os.path.join(REPO, "lib", "py")})
+            print(g.stderr[-600:] or "passes: imports, instantiates, encodes")
+            return 1 if g.returncode else 0
+        if lang == "go":
+            bad = []
+            for root, _d, fs in os.walk(sc.path("out")):
+                for f in fs:
+                    if f.endswith(".go"):
+                        bad += [f"{f}: {x}" for x in gostatic.check(open(os.path.join(root, f)).read())]
+            print("\n".join(bad[:6]) or "passes: well-formed Go")
+            return 1 if bad else 0
     return 1
